@@ -8,8 +8,8 @@ BpeMerged == << <<97, 98>>, <<97, 97>>, <<32, 97>>, <<195, 169>>, <<60, 115>>, <
                 <<240, 159>>, <<152, 128>>, <<240, 159, 152, 128>>, <<97, 97, 98>>, <<98, 32>>, <<194, 173>>,
                 <<194, 160>>, <<97, 98, 97, 98>>, <<32, 32>>, <<10, 10>> >>
 VBpe == [fam |-> "bpe",
-         pieces |-> [i \in 1..256 |-> <<i - 1>>] \o BpeMerged \o << <<60, 115, 62>> >>,
-         ctrl |-> {256 + Len(BpeMerged) + 1},
+         pieces |-> [i \in 1..256 |-> <<i - 1>>] \o BpeMerged \o << <<60, 115, 62>>, <<60, 101, 62>> >>,   \* "<s>", "<e>"
+         ctrl |-> {256 + Len(BpeMerged) + 1, 256 + Len(BpeMerged) + 2},
          merges |-> << <<<<97>>, <<98>>>>, <<<<97>>, <<97>>>>, <<<<32>>, <<97>>>>, <<<<195>>, <<169>>>>,
                        <<<<98>>, <<98>>>>,                  \* ranked, but "bb" is no vocabulary entry
                        <<<<60>>, <<115>>>>, <<<<115>>, <<62>>>>, <<<<126>>, <<126>>>>, <<<<240>>, <<159>>>>,
@@ -20,7 +20,7 @@ VBpe == [fam |-> "bpe",
 \* a, b, blank, ~, DEL, <, s, >, e-acute, soft hyphen, emoji, no-break space, inverted !, 0x01, newline
 UnitsBpe == << <<97>>, <<98>>, <<32>>, <<126>>, <<127>>, <<60>>, <<115>>, <<62>>, <<195, 169>>, <<194, 173>>,
                <<240, 159, 152, 128>>, <<194, 160>>, <<194, 161>>, <<1>>, <<10>>,
-               <<60, 115, 62>> >>                     \* the literal form of the control token as one unit (repeated occurrences)
+               <<60, 115, 62>>, <<60, 101, 62>> >>    \* the literal forms of the control tokens as units (repeated occurrences)
 
 \* ------------------------------------------------------------------ sentencepiece
 Hex(d) == IF d < 10 THEN 48 + d ELSE 55 + d
@@ -28,14 +28,15 @@ ByteSurface(b) == <<60, 48, 120, Hex(b \div 16), Hex((b % 16)), 62>>        \* "
 SpmPieces == << <<Mark>>, <<97>>, <<98>>, <<97, 98>>, <<Mark, 97>>, <<Mark, 97, 98>>, <<97, 97>>, <<60>>, <<115>>, <<62>>,
                 <<115, 62>>, <<126>>, <<Mark, Mark>>, <<98, Mark>>, <<97, 98, 97, 98>> >>
 VSpm == [fam |-> "spm",
-         pieces |-> [i \in 1..256 |-> ByteSurface(i - 1)] \o SpmPieces \o << <<60, 115, 62>> >>,
-         ctrl |-> {256 + Len(SpmPieces) + 1},
+         \* "<s>" can also be reached by merging "<" with the piece "s>"; "<e>" only by the cut at special tokens
+         pieces |-> [i \in 1..256 |-> ByteSurface(i - 1)] \o SpmPieces \o << <<60, 115, 62>>, <<60, 101, 62>> >>,
+         ctrl |-> {256 + Len(SpmPieces) + 1, 256 + Len(SpmPieces) + 2},
          merges |-> <<>>,
-         score |-> [i \in 1..256 |-> 0] \o <<-9, -10, -10, -1, -2, -3, -4, -10, -10, -10, -5, -10, -4, -2, -6>> \o <<0>>,
+         score |-> [i \in 1..256 |-> 0] \o <<-9, -10, -10, -1, -2, -3, -4, -10, -10, -10, -5, -10, -4, -2, -6>> \o <<0, 0>>,
          nbyte |-> 256]
 \* a, b, blank, e-acute, emoji, <, s, >, ~, newline, euro sign, combining acute
 UnitsSpm == << <<97>>, <<98>>, <<32>>, <<233>>, <<128512>>, <<60>>, <<115>>, <<62>>, <<126>>, <<10>>, <<8364>>, <<769>>,
-               <<60, 115, 62>> >>
+               <<60, 115, 62>>, <<60, 101, 62>> >>
 \* plus the literal form of a byte token (pinned behaviour: it is looked up like any piece)
 UnitsSpmLiteral == UnitsSpm \o << ByteSurface(65) >>
 ===============================================================================
